@@ -1591,6 +1591,12 @@ impl PeerConnection {
             *stored = remote_dtls_fingerprint;
         }
 
+        // Publish the remote description before ICE can start: as soon as ICE connects, a
+        // background task runs start_dtls(), which reads it (sctp_needed, RTCP address,
+        // SDES crypto). On loopback/LAN the offerer can get there before the end of this
+        // function, see no m=application and never create its SCTP transport.
+        *self.inner.remote_description.lock() = Some(desc.clone());
+
         // Start ICE
         let mut ufrag = None;
         let mut pwd = None;
